@@ -155,6 +155,7 @@ theorem applyEffect_wd_mono (s s' : State) (e : Effect) (k : String × String)
     · subst hkk; simp [lookup_setN_same]
     · rw [lookup_setN_other _ _ _ _ hkk]; exact hk
   all_goals first
+    | (cases h; done)
     | (injection h with h; subst h; first | exact hk | (unfold updBridge; split <;> exact hk) | (split <;> exact hk))
     | (split at h
        · injection h with h; subst h; exact hk
